@@ -195,7 +195,7 @@ C18 = Prop(
          "storage addresses of engaged optionals. Non-trivial: at least 2 operations. Distinct = distinct case line. " \
                 "optional: the histories also run over optional<bool> and optional<T> for a T with a catch-all converting constructor; copy construction from non-const and const lvalues compared; ops cpk/mvk rebuild a slot in place by copy / move construction, so that a copy-constructed object stays (storage addresses of all engaged slots are compared after every step).",
     harness=HARNESS, search=lambda dis, rng: gen_c18("thorough", rng)[:150000],
-    theorem_hint="NitroVerif.Props.C18.{history_inv,exactly_once,never_twice,moved_from_empty,ohistory_inv,independent,"
+    theorem_hint="NitroVerif.Props.C18.{history_inv,exactly_once,never_twice,failed_creation_neutral,moved_from_empty,ohistory_inv,independent,"
                  "target_reads,no_alias}",
     level_text="Lean 4 invariant proofs over all ownership histories: every object is owned by exactly one pointer or "
                "destroyed exactly once by its creation type's destructor; when all pointers are gone every object has "
